@@ -93,6 +93,9 @@ def accumulate_t(rep, results, step_kind="step"):
             ll["granularity"] = r["spec"].get("gran", "line")
             if r["spec"]["chunk"][0] == 0:
                 ll["preemption_points"] += r.get("preemption_points") or 0
+            if r.get("second_preemption_points"):
+                ll["second_preemption_points"] = ll.get("second_preemption_points", 0) + r["second_preemption_points"]
+                ll["scenarios_with_two_preemptions"] = sorted(set(ll.get("scenarios_with_two_preemptions", [])) | {r["spec"]["name"]})
             if r["capped"]:
                 ll["capped"].append(r["name"])
     if ll["jobs"]:
